@@ -576,6 +576,54 @@ impl Scenario for C19 {
             // re-entrancy: one JitterRng advanced from inside the timer callback of another one
             return super::c12::gen_nested_spec(rng, "C19", "nested");
         }
+        if rng.chance(1, 12) {
+            // jump family: three to five instances of ONE jump-capable type, seeds drawn from a pool of two,
+            // the same short history and then jump() or long_jump() - same-state siblings doing different
+            // kinds of jump next to strangers doing the same kind (a memo of jump results would be keyed on
+            // exactly these things)
+            spec.variant = "schedule".into();
+            let kinds: Vec<Kind> = DET_KINDS.iter().copied().filter(|k| k.has_jump()).collect();
+            let kind = *rng.pick(&kinds);
+            let seeds = [gen_seed(rng, kind), gen_seed(rng, kind)];
+            let pre = gen_output_ops(rng, kind, 3);
+            let with_pre = rng.chance(1, 2);
+            let n = rng.range(3, 5) as usize;
+            let mut insts = Vec::new();
+            for _ in 0..n {
+                let mut ops = if with_pre { pre.clone() } else { Vec::new() };
+                ops.push(if rng.chance(1, 2) { Op::Jump } else { Op::LongJump });
+                ops.extend(gen_output_ops(rng, kind, 3));
+                if rng.chance(1, 3) {
+                    ops.push(if rng.chance(1, 2) { Op::Jump } else { Op::LongJump });
+                    ops.push(Op::U64);
+                }
+                insts.push(Inst { kind, seed: Some(rng.pick(&seeds).clone()), clock: None, rounds: None, ops });
+            }
+            spec.threads = rng.range(1, 3) as u8;
+            // whole instances one after the other, in a random order, now and then interleaved op by op
+            let mut order: Vec<u8> = (0..n as u8).collect();
+            for i in (1..order.len()).rev() {
+                let j = rng.below(i as u64 + 1) as usize;
+                order.swap(i, j);
+            }
+            let mut sched = Vec::new();
+            if rng.chance(2, 3) {
+                for i in &order {
+                    let t = rng.below(spec.threads as u64) as u8;
+                    for _ in 0..insts[*i as usize].ops.len() {
+                        sched.push((*i, t));
+                    }
+                }
+            } else {
+                let total: usize = insts.iter().map(|i| i.ops.len()).sum();
+                for k in 0..total + n {
+                    sched.push((order[k % n], rng.below(spec.threads as u64) as u8));
+                }
+            }
+            spec.sched = sched;
+            spec.insts = insts;
+            return spec;
+        }
         spec.variant = "schedule".into();
         let n = rng.range(2, 6) as usize;
         // same-type, same-seed instances are likely to collide in a shared cache: bias towards them
